@@ -38,7 +38,7 @@ m = {
         "add_only": True,
     },
     "engines": [{"name": "pcdverif", "path": "pcdverif/", "serves_properties": [c["property_id"] for c in checks],
-                 "kind_free_text": "Hypothesis-driven generated-input search (16 sharded processes) against independent reference oracles (pure-Python spec implementations, system libcrypto via ctypes, hashlib), stateful step-list machines for histories, exhaustive enumeration of small finite domains, ASan-instrumented build for memory safety"}],
+                 "kind_free_text": "Hypothesis-driven generated-input search (16 sharded processes) against independent reference oracles (pure-Python spec implementations, system libcrypto via ctypes, hashlib), stateful step-list machines for histories, exhaustive enumeration of small finite domains, coverage-guided atheris/libFuzzer campaigns with a structure-aware DER mutator (C05, C13), ASan-instrumented build for memory safety"}],
     "checks": checks,
     "not_applicable": na,
     "notes": "Every check: ./vf check <id> --tier quick|thorough; replay: ./vf replay <file>. Exit 0 held / 1 VIOLATION / 2 harness error. Known findings: known_findings.json.",
